@@ -327,7 +327,7 @@ def _remove_default_ctx_seam(tok):
     m.ssl = real_ssl
 
 
-def make_default_pool(variant, backend, proxy, http1, http2):
+def make_default_pool(variant, backend, proxy, http1, http2, ssl_context=None):
     cls = httpcore.ConnectionPool if variant == "sync" else httpcore.AsyncConnectionPool
     p = None
     if proxy == "http":
@@ -336,19 +336,20 @@ def make_default_pool(variant, backend, proxy, http1, http2):
         p = httpcore.Proxy(f"https://{scen.PROXY_HOST}:{scen.PROXY_PORT}")
     elif proxy in ("socks5", "socks5h"):
         p = httpcore.Proxy(f"{proxy}://{scen.SOCKS_HOST}:{scen.SOCKS_PORT}")
-    return cls(ssl_context=None, proxy=p, http1=http1, http2=http2, network_backend=backend, max_connections=10)
+    return cls(ssl_context=ssl_context, proxy=p, http1=http1, http2=http2, network_backend=backend, max_connections=10)
 
 
 def run_defctx(case, variant, k):
     """k = None: request A alone (returns the number of trace events); else request B inside A's k-th trace event."""
-    _, proxyA, proxyB, swA, swB, alpn, schemeA, schemeB = case
+    _, proxyA, proxyB, swA, swB, alpn, schemeA, schemeB = case[:8]
+    shared = sim.RecordingSSLContext("shared") if case[0] == "sharedctx" else None      # one caller-supplied context given to both pools
     topo = Topo(proxyA if proxyA != "none" else proxyB, alpn)
     w = SeqWorld(Chooser([]), topo.router, variant=variant)
     w.env.fp = None
     ns, tok = _install_default_ctx_seam()
     try:
-        poolA = make_default_pool(variant, w.backend, proxyA, *swA)
-        poolB = make_default_pool(variant, w.backend, proxyB, *swB)
+        poolA = make_default_pool(variant, w.backend, proxyA, *swA, ssl_context=shared)
+        poolB = make_default_pool(variant, w.backend, proxyB, *swB, ssl_context=shared)
         urlA, urlB = f"{schemeA}://a.example/t/q0", f"{schemeB}://b.example/t/q1"
         results = {}
         events = []
@@ -397,11 +398,11 @@ def run_defctx(case, variant, k):
 
 def judge_defctx(case, variant, k, topo, results, res, events, ns):
     out = []
-    _, proxyA, proxyB, swA, swB, alpn, schemeA, schemeB = case
+    _, proxyA, proxyB, swA, swB, alpn, schemeA, schemeB = case[:8]
     where = events[k] if (k is not None and k < len(events)) else None
 
     def bad(kind, msg, **sigx):
-        out.append({"oracle": "C10." + kind, "message": f"{msg} | default ssl contexts, variant={variant} A=(proxy {proxyA}, http1/http2 {swA}, {schemeA}) B=(proxy {proxyB}, http1/http2 {swB}, {schemeB}) alpn={alpn}; B ran inside A's trace event #{k} ({where})",
+        out.append({"oracle": "C10." + kind, "message": f"{msg} | {'default ssl contexts' if case[0] == 'defctx' else 'one ssl context shared by both pools'}, variant={variant} A=(proxy {proxyA}, http1/http2 {swA}, {schemeA}) B=(proxy {proxyB}, http1/http2 {swB}, {schemeB}) alpn={alpn}; B ran inside A's trace event #{k} ({where})",
                     "signature": dict({"harness": "default-context", "kind": kind, "proxy": proxyA}, **sigx),
                     "case": {"defctx": [list(x) if isinstance(x, tuple) else x for x in case], "variant": variant, "k": k}})
 
@@ -447,7 +448,7 @@ def judge_defctx(case, variant, k, topo, results, res, events, ns):
             bad("protocol", f"request {i}: spoke {s['proto']}; ALPN selected {layers[0]['selected'] if layers else None}, http1={h1}, http2={h2}")
         if (s["proto"] == "h2") and not h2:
             bad("h2-on-http1-pool", f"request {i}: HTTP/2 spoken on a pool with http2=False")
-    for c in ns.made:
+    for c in (ns.made if case[0] == "defctx" else []):
         if not getattr(c, "verify_loaded", False):
             bad("trust-store", "a default context was used without the certificate bundle being loaded into it")
     return out
@@ -471,6 +472,10 @@ def run_defctx_case(case, variant):
     out = judge_defctx(case, variant, None, topo, results, res, events, ns)
     n = 1
     for k in range(len(events)):
+        if case[0] == "sharedctx" and not events[k].startswith(("connection.connect_tcp.", "connection.connect_unix_socket.")):
+            # a context the caller shares between pools is configured right before each handshake; only the part of the establishment
+            # that lies BEFORE that (the TCP connect) may overlap another pool's work without the two interfering
+            continue
         t = run_defctx(case, variant, k)
         out += judge_defctx(case, variant, k, *t)
         n += 1
@@ -489,6 +494,8 @@ def replay_case(case):
         return apiuse.replay_case(case, ("C10",))
     if "defctx" in case:
         c = tuple(tuple(x) if isinstance(x, list) else x for x in case["defctx"])
+        if c[0] not in ("defctx", "sharedctx"):
+            c = ("defctx",) + c[1:]
         t = run_defctx(c, case["variant"], case["k"])
         return judge_defctx(c, case["variant"], case["k"], *t)
     return run_case(tuple(case["case"]), case["variant"])
@@ -497,8 +504,8 @@ def replay_case(case):
 def _job(chunk):
     out, n, classes = [], 0, set()
     for case in chunk:
-        for variant in (("sync", "async") if case[0] == "defctx" or case[1] == "none" else ("sync", "async", "sync-legacy", "async-legacy")):
-            if case[0] == "defctx":
+        for variant in (("sync", "async") if case[0] in ("defctx", "sharedctx") or case[1] == "none" else ("sync", "async", "sync-legacy", "async-legacy")):
+            if case[0] in ("defctx", "sharedctx"):
                 m, v = run_defctx_case(case, variant)
                 n += m
                 out += v[:3]
@@ -516,7 +523,7 @@ def check(tier="quick", seed=0, workers=None, only=None):
     # the default-context cases need the name `ssl` inside httpcore._ssl; a tree that obtains its default context differently is not
     # wrong for that, the cases are then left out (and the evidence says so) instead of failing the check
     seam_ok = hasattr(_sslmod, "ssl") and hasattr(_sslmod, "default_ssl_context")
-    allc = list(config_cases(tier)) + list(pair_cases(tier)) + list(mutated_url_cases(tier)) + (list(defctx_cases(tier)) if seam_ok else [])
+    allc = list(config_cases(tier)) + list(pair_cases(tier)) + list(mutated_url_cases(tier)) + (list(defctx_cases(tier)) if seam_ok else []) + [("sharedctx",) + c[1:] for c in defctx_cases(tier) if c[1] == "none" and c[2] == "none" and c[6] != "http"]
     nw = workers or min(16, os.cpu_count() or 1)
     size = max(1, len(allc) // (nw * 8))
     chunks = [allc[i:i + size] for i in range(0, len(allc), size)]
@@ -531,7 +538,7 @@ def check(tier="quick", seed=0, workers=None, only=None):
     viols += av
     total += n_api
     ncfg = sum(1 for c in allc if c[0] == "config")
-    ndef = sum(1 for c in allc if c[0] == "defctx")
+    ndef = sum(1 for c in allc if c[0] in ("defctx", "sharedctx"))
     cov = {"evaluations": total, "distinct_nontrivial": len(classes), "exhaustive": True,
            "rule": ("full configuration product scheme(4) x port form(4) x proxy mode(5) x http1/http2 switches(3) x ALPN outcome(3) x sni_hostname(2), the same with the target request extension, and every request "
                     "sequence of length 2-3 over every pair of origins (4 schemes x 2 hosts x 4 port forms) differing in exactly one effective component (also with all requests of a sequence made from one URL object changed in place), sync and async, proxied pools built both as ConnectionPool(proxy=Proxy(...)) and as HTTPProxy / SOCKSProxy objects; "
